@@ -331,6 +331,15 @@ func c12GenSock(r *mon.Rand) *c12Sock {
 		}
 		s.IP = ip[:]
 		s.Saddr = logenc.SockaddrInet4(ip, s.Port)
+		// the kernel logs exactly addrlen bytes of the caller's buffer: 8..15 bytes still hold family, port and
+		// address (the padding is cut short), and a caller may pass a longer buffer (sockaddr_storage)
+		if fr := r.Fork(41); fr.Chance(1, 4) {
+			if fr.Bool() {
+				s.Saddr = s.Saddr[:2*fr.Range(8, 15)]
+			} else {
+				s.Saddr += logenc.Hex(fr.Bytes(mon.Pick(fr, []int{1, 4, 12, 112})))
+			}
+		}
 	case 1:
 		s.Family = "ipv6"
 		var ip [16]byte
@@ -358,6 +367,14 @@ func c12GenSock(r *mon.Rand) *c12Sock {
 		}
 		s.Scope = uint32(r.Intn(8))
 		s.Saddr = logenc.SockaddrInet6(ip, s.Port, s.Flow, s.Scope)
+		// 24..27 bytes: the RFC 2133 length without (all of) the scope id, which Linux accepts; or a longer buffer
+		if fr := r.Fork(42); fr.Chance(1, 4) {
+			if fr.Bool() {
+				s.Saddr = s.Saddr[:2*fr.Range(24, 27)]
+			} else {
+				s.Saddr += logenc.Hex(fr.Bytes(mon.Pick(fr, []int{1, 4, 100})))
+			}
+		}
 	default:
 		s.Family = "unix"
 		if r.Chance(1, 12) {
